@@ -27,7 +27,12 @@ class C14(WrapHarness):
         for algo in ('F', 'O'):
             out.append({'feat': 'full', 'algo': algo, 'sep': 'A', 'split': 'H', 'bw': True, 'le': 'LF', 'gen': 'words',
                         'nwords': 3, 'wl': 1 if q else 2, 'maxgap': 2, 'trail': True, 'wmax': 1 << 16})
-        out += std_tmpl_spaces({'feat': 'full', 'algo': 'F', 'sep': 'A', 'split': 'H', 'bw': True, 'le': 'LF'}, q)
+        # (the property is stated for empty indents: no indent variants here)
+        tb = {'feat': 'full', 'algo': 'F', 'sep': 'A', 'split': 'H', 'bw': True, 'le': 'LF'}
+        out += std_tmpl_spaces(tb, q, variants=False)
+        if not q:
+            out += tmpl_spaces(dict(tb, bw=False), ['sentence', 'paras', 'hyphens', 'wide'])
+            out += tmpl_spaces(dict(tb, le='CRLF'), ['paras', 'crlf'])
         out += atmpl_spaces({'feat': 'full', 'algo': 'F', 'split': 'H', 'bw': False, 'le': 'LF'},
                             ['short', 'wide'] if q else ['short', 'wide', 'sentence', 'paras'], [' ', 'a', '-', '你', '\n', ')'])
         # Unicode separator: no force-breaking (break_words off)
